@@ -1,0 +1,18 @@
+//go:build verif
+
+package policer
+
+import (
+	"context"
+
+	iec "github.com/nspcc-dev/neofs-node/internal/ec"
+	"github.com/nspcc-dev/neofs-sdk-go/netmap"
+	"github.com/nspcc-dev/neofs-sdk-go/object"
+)
+
+// VerifRecreateECPart runs the real recreateECPart (forming of the part object
+// and the replication task with its node order) for the model-based
+// verification harness.
+func (p *Policer) VerifRecreateECPart(ctx context.Context, parent object.Object, dataParts, parityParts uint8, ruleIdx, partIdx int, part []byte, sortedNodes []netmap.NodeInfo) {
+	p.recreateECPart(ctx, parent, iec.Rule{DataPartNum: dataParts, ParityPartNum: parityParts}, ruleIdx, partIdx, part, sortedNodes)
+}
